@@ -54,3 +54,46 @@ def proof_violation(chk, module, pr, problems, n_cases):
     chk.violation("proof", "proof obligations of XmlRsModel.Thm.%s no longer check against the regenerated model:\n  " % module +
                   "\n  ".join(list(problems) + list(pr["failed"])) + "\n" + pr["log"][-1500:] +
                   "\nNo input on which the property itself fails was found (%d cases explored).\n" % n_cases, no_input=True)
+
+
+def class_witness(key, cp):
+    """a document in which code point `cp` stands where character class `key` is required"""
+    c = chr(cp)
+    return {
+        "char": "<a>%s</a>" % c,
+        "namestart": "<%s/>" % c,
+        "namechar": "<a%s/>" % c,
+        "pubid": "<!DOCTYPE a PUBLIC \"%s\" \"s\"><a/>" % c,
+        "encname": "<?xml version=\"1.0\" encoding=\"a%s\"?><a/>" % c,
+    }[key]
+
+
+def class_table_search(tabs):
+    """search step when the extracted class tables differ from the Recommendation: concrete documents on which the
+    running code answers differently from XML 1.0.  Returns [(key, cp, impl_in_class, spec_in_class, text, outcome)]"""
+    import extract
+    res = []
+    for key, cp, impl_in, spec_in in extract.first_difference(tabs):
+        if 0xD800 <= cp <= 0xDFFF or cp == 0:
+            continue
+        text = class_witness(key, cp)
+        out = lib.run_lines(lib.build_harness(), [lib.req("accept", text)])[0]
+        res.append((key, cp, impl_in, spec_in, text, out))
+    return res
+
+
+def boundary_docs():
+    """abstract documents at the nesting limit read from the source (MAX_ELEMENT_DEPTH): exactly at the limit with a
+    non-empty innermost element, one below, and a trivial one.  They are placed FIRST in a stream and repeated, so that
+    state leaking from one parse into the next (all lines of a stream run on one thread of one process) shows up."""
+    limit = lib.XML_CONSTS.get("MAX_ELEMENT_DEPTH")
+    if not limit:
+        return []
+    def nest(n, inner):
+        it = ("E", "a", [], inner)
+        for _ in range(n - 1):
+            it = ("E", "a", [], [it])
+        return {"decl": None, "heads": [], "doctype": None, "mids": [], "root": it, "tails": []}
+    st = xmlgen.Style(None, canonical=True)
+    docs = [nest(limit, [("t", "x")]), nest(limit, [("t", "x")]), nest(limit - 1, []), nest(limit, [("t", "y")]), nest(1, [])]
+    return [(d, [xmlgen.render(d, st)]) for d in docs]
